@@ -158,6 +158,33 @@ func runStrategySim(env *RunEnv) {
 		})
 		return out, order
 	}
+	// In half of the runs the process has used the strategies before, on a
+	// DBI of another environment that has the same handle number but the
+	// other key order: nothing of that may stick (per-handle caches).
+	if t.Choose("st-prevlife", 2) == 1 {
+		pe, err := lmdbenv.NewWithOptions(env.Root+"/strat-prev", lmdbenv.Options{Create: true, MapSize: 8 * datasize.MB, EnvFlags: lmdb.NoSync | lmdb.NoMetaSync})
+		if err == nil {
+			other := flags ^ 0x08
+			_ = pe.Update(func(txn *lmdb.Txn) error {
+				dbi, err := txn.OpenDBI("t", lmdb.Create|other)
+				if err != nil {
+					return err
+				}
+				k1, k2 := []byte{1, 0, 0, 0}, []byte{0, 1, 0, 0} // 1 and 256 as little-endian uint32; in byte order 256 sorts first
+				if other&0x08 == 0 {
+					k1, k2 = k2, k1
+				}
+				in := [][]byte{k1, k2}
+				it := &scriptIt{keys: in, merge: map[string]decision{string(k1): decReplace, string(k2): decReplace},
+					newVal: map[string][]byte{string(k1): []byte("p1"), string(k2): []byte("p2")}, clean: decKeep}
+				_ = strategy.IterUpdate(txn, dbi, it)
+				it2 := &scriptIt{keys: in, merge: it.merge, newVal: it.newVal, clean: decKeep}
+				_ = strategy.Update(txn, dbi, it2)
+				return nil
+			})
+			pe.Close()
+		}
+	}
 	// create the DBI
 	if err := e.Update(func(txn *lmdb.Txn) error { _, err := txn.OpenDBI("t", lmdb.Create|flags); return err }); err != nil {
 		env.Res.HarnessErr = err.Error()
